@@ -64,6 +64,14 @@ func call(overrideFN *string, namespace types.EnvType, fIn types.MalType, args .
 			minArgs, maxArgs = 0, unlimitedArgments
 		}
 	}
+	if contextRequired && len(args) > 0 {
+		// explicit bounds count lisp arguments only, while bounds derived from
+		// the signature (and the check in _args_ctx) include the context
+		minArgs++
+		if maxArgs != unlimitedArgments {
+			maxArgs++
+		}
+	}
 	if minArgs > maxArgs {
 		panic(fmt.Errorf("%s: maximum arguments (%d) is lower than minimum arguments (%d)", functionFullName, maxArgs, minArgs))
 	}
